@@ -131,6 +131,19 @@ func init() {
 			for i := range cases {
 				cases[i] = genAPICase(c.Rand, udp)
 			}
+			if prop == "C13" {
+				// many short sessions whose server application speaks the instant Accept returns
+				// (the SOCKS5 reply): the open response and the first data segment are numbered
+				// concurrently
+				k := genAPICase(c.Rand, true)
+				k.NoWait, k.Faults, k.Multiplex = false, sim.FaultSpec{Seed: 1}, 3
+				k.Scripts = nil
+				for j := 0; j < 60; j++ {
+					k.Scripts = append(k.Scripts, sim.Script{ClientWrites: []int{10}, ServerWrites: []int{200, 10}, MaxRead: 1500})
+				}
+				cases = append(cases, k)
+				n = len(cases)
+			}
 			core.Parallel(n, 8, func(i int) { apiRun(c, cases[i], prop) })
 			bgClose.Wait(30 * time.Second)
 		})
